@@ -190,7 +190,25 @@ def judge_components(sim, trace, out_text, counters, genetic_haplotyping=True, r
         positions = list(inst["positions"])
         reads_pos = [[p for p, a, q in r["vars"]] for r in inst["reads"]]
         master = None
-        if len(family) > 1 and genetic_haplotyping and not inst["distrust"]:
+        if inst["distrust"]:
+            # genotypes are those of the result: a variant counts as heterozygous / homozygous for a member according to
+            # the haplotype alleles the run produced; reads link only variants heterozygous in their own sample
+            ids = inst.get("sample_ids") or {}
+            het = {}
+            hom_any = set()
+            for s, srs in zip(family, inst.get("superreads", [])):
+                hs = set()
+                for v0, v1 in zip(srs[0], srs[1]):
+                    g = (v0[1], v1[1])
+                    if g in ((0, 1), (1, 0)):
+                        hs.add(v0[0])
+                    elif g in ((0, 0), (1, 1)):
+                        hom_any.add(v0[0])
+                het[ids.get(s)] = hs
+            reads_pos = [[p for p, a, q in r["vars"] if p in het.get(r["sample_id"], ())] for r in inst["reads"]]
+            if len(family) > 1 and genetic_haplotyping:
+                master = sorted(hom_any)
+        elif len(family) > 1 and genetic_haplotyping:
             cls = family_genotype_classes(sim.doc, chrom, family, inst["trios"])
             master = sorted(p for p in positions if cls.get(p, ("", False)) == ("retained", True))
         comp = _components(positions, reads_pos, master)
@@ -326,7 +344,11 @@ def judge_witness(trace, counters, brute_limit=14):
 def judge_passthrough(in_path, out_path, doc, targets, chromosomes, tag, only_snvs, distrust, counters):
     """htslib record differ between input and output of `phase`."""
     a = vcfdiff.load(in_path)
-    b = vcfdiff.load(out_path)
+    try:
+        b = vcfdiff.load(out_path)
+    except (OSError, ValueError) as e:
+        raw = open(out_path, "rb").read()
+        return [{"mech": "output-not-readable-by-htslib" + (":nul-byte" if b"\x00" in raw else ""), "msg": "htslib cannot read the output VCF: %s" % e}]
     first_pos = {}
     for i, r in enumerate(a["records"]):
         first_pos.setdefault((r["chrom"], r["pos"]), i)
